@@ -4817,7 +4817,10 @@ impl<'a, const HAS_CR: bool> Parser<'a, HAS_CR> {
                     // Empty line - skip and continue
                     self.skip_line_break();
                 }
-                Some(b'#') => {
+                // A `#` line indented past the indicator's level is scalar content (it
+                // even sets the content indentation), not a comment; only a line at or
+                // below that level can be one.
+                Some(b'#') if indent <= base_indent => {
                     // Comment line - skip to end
                     self.skip_to_eol();
                     self.skip_line_break();
